@@ -3,7 +3,8 @@
    convex-then-general fallback, missing/unknown type -> ValueError) over opaque geometry; the two
    facts about constructors it relies on (ConvexPolygon accepts exactly convex position; stored convex
    vertices are a fixed point of its re-ordering) are section parameters, checked by correspondence.
-   repr / to_json / to_hoomd are decided by correspondence only (partial). *)
+   repr / to_json are decided by correspondence only (partial); for to_hoomd the mathematics of 'the one centred shape' is
+   proved (C19_hoomd_centred_shape), its implementation is decided by correspondence. *)
 From Coq Require Import List Bool Arith.
 Require Import Cox.Model.Roundtrip Cox.Thm.RoundtripThm.
 
@@ -35,3 +36,18 @@ Print Assumptions C19_dispatch_class.
 (* a non-convex cycle in a Polygon spec yields a Polygon *)
 Example C19_nonconvex_polygon_spec : dispatch_class TPolygon false 2 false = Some KPolygon.
 Proof. reflexivity. Qed.
+
+
+(* to_hoomd describes the shape translated so that its centroid is at the origin: for every closed surface with centroid c the
+   translated surface has the same volume, centroid (0,0,0) and second moments P - V c c^T (so its inertia tensor about the
+   origin IS the inertia tensor about the centroid) *)
+Require Import Reals Cox.Num.Ops Cox.Geo.Vec Cox.Model.Mesh Cox.Thm.MeshThm Cox.Thm.Centred.
+Theorem C19_hoomd_centred_shape :
+  forall (c : vec3 R) (TT : list (@tri R)), closed TT -> cone0 Rops TT <> 0%R ->
+    (forall i, vcomp i c = spec_centroid Rops i TT) ->
+    cone0 Rops (map (tshift Rops c) TT) = cone0 Rops TT
+    /\ (forall i, cone1 Rops i (map (tshift Rops c) TT) = 0%R)
+    /\ (forall i, spec_centroid Rops i (map (tshift Rops c) TT) = 0%R)
+    /\ (forall i j, cone2 Rops i j (map (tshift Rops c) TT) = (cone2 Rops i j TT - cone0 Rops TT * vcomp i c * vcomp j c)%R).
+Proof. exact centred_shape. Qed.
+Print Assumptions C19_hoomd_centred_shape.
